@@ -54,7 +54,11 @@ def _values(rng, shape, dtype, cats=False):
         v = np.array(alphabet, dtype=dt)[nprs.randint(0, len(alphabet), shape)]
     else:
         style = rng.choice(["normal", "tenths", "uniform", "const", "smallint"])
-        if style == "normal":
+        if dt.kind == "i" and rng.random() < 0.15:
+            style = "bigint"       # wave 4, c03d-2: integer partial sums (of squares) that wrap only for large magnitudes
+        if style == "bigint":
+            v = nprs.randint(2_000_000_000, 2_147_483_647, shape).astype(float) * nprs.choice([-1.0, 1.0], shape)
+        elif style == "normal":
             v = nprs.normal(0, 100, shape)
         elif style == "tenths":
             v = nprs.randint(-500, 500, shape) / 10.0
